@@ -106,35 +106,36 @@ void h_run(Case &c) {
   { int nswitch = d.range(0, 3); for (int i = 0; i < nswitch; i++) { hwloc_obj_t o = sel_obj_with_sets(d, t); hwloc_obj_set_subtype(t, o, "NVSwitch"); } }
   static const int types[] = {HWLOC_OBJ_PU, HWLOC_OBJ_CORE, HWLOC_OBJ_PACKAGE, HWLOC_OBJ_NUMANODE, HWLOC_OBJ_L2CACHE, HWLOC_OBJ_L3CACHE, HWLOC_OBJ_GROUP, HWLOC_OBJ_MACHINE};
   static const char *names[] = {"a", "b", "NUMALatency", "x<&>\"y"};
-  int adds = 0, events = 0, gets_after = 0;
+  int adds = 0, events = 0, gets_after = 0; bool tail_removed = false; size_t nprefix = (size_t)c.head.range(0, 3);
   for (size_t s = 0; s < c.ops.size(); s++) {
-    Draw &o = c.ops[s]; int op = o.range(0, 15);
+    Draw &o = c.ops[s]; int op = o.range(0, 15); bool force_valid = s < nprefix; if (force_valid) op = 0;   // histories start with up to three valid adds: every other operation needs a populated list
     if (op <= 3) {  // add
       unsigned long kind = 0; int kf = o.range(0, 5); kind |= kf == 0 ? 0 : kf <= 2 ? HWLOC_DISTANCES_KIND_FROM_OS : kf <= 4 ? HWLOC_DISTANCES_KIND_FROM_USER : (HWLOC_DISTANCES_KIND_FROM_OS | HWLOC_DISTANCES_KIND_FROM_USER);
       int kv = o.range(0, 7); kind |= kv == 0 ? 0 : kv <= 2 ? HWLOC_DISTANCES_KIND_VALUE_LATENCY : kv <= 4 ? HWLOC_DISTANCES_KIND_VALUE_BANDWIDTH : kv <= 6 ? HWLOC_DISTANCES_KIND_VALUE_HOPS : (HWLOC_DISTANCES_KIND_VALUE_LATENCY | HWLOC_DISTANCES_KIND_VALUE_BANDWIDTH);
-      if (o.chance(1, 16)) kind |= 1UL << o.range(7, 20);
+      if (force_valid) { if (kf == 5) kind &= ~(unsigned long)HWLOC_DISTANCES_KIND_FROM_OS, kf = 3; if (kv == 7) kind &= ~(unsigned long)HWLOC_DISTANCES_KIND_VALUE_BANDWIDTH, kv = 2; }
+      if (!force_valid && o.chance(1, 16)) kind |= 1UL << o.range(7, 20);
       bool bad = kf == 5 || kv == 7 || (kind >> 7);
       bool hn = o.chance(1, 2); const char *nm = hn ? o.pick(names) : NULL;
       std::vector<hwloc_obj_t> pool; bool hetero = o.chance(1, 4); int ty = o.pick(types);
       if (hetero) { for (int k = 0; k < 3; k++) { int ty2 = o.pick(types); hwloc_obj_t x = NULL; while ((x = hwloc_get_next_obj_by_type(t, (hwloc_obj_type_t)ty2, x))) if (std::find(pool.begin(), pool.end(), x) == pool.end()) pool.push_back(x); } }
       else { hwloc_obj_t x = NULL; while ((x = hwloc_get_next_obj_by_type(t, (hwloc_obj_type_t)ty, x))) pool.push_back(x); }
       for (size_t i = pool.size(); i > 1; i--) std::swap(pool[i - 1], pool[o.raw() % i]);   // generated permutation
-      unsigned nb = o.chance(1, 8) ? o.range(0, 1) : o.range(2, 6); if (nb > pool.size()) nb = (unsigned)pool.size(); pool.resize(nb);
-      unsigned long cflags = o.chance(1, 20) ? 1 : 0; std::string what = strf("add(name=%s kind=0x%lx nb=%u %s cflags=%lu)", nm ? nm : "NULL", kind, nb, hetero ? "mixed" : hwloc_obj_type_string((hwloc_obj_type_t)ty), cflags); c.attempt(what);
+      unsigned nb = o.chance(1, 8) ? o.range(0, 1) : o.range(2, 6); if (force_valid && nb < 2) nb = 2; if (nb > pool.size()) nb = (unsigned)pool.size(); pool.resize(nb);
+      unsigned long cflags = o.chance(1, 20) ? 1 : 0; if (force_valid) cflags = 0; std::string what = strf("add(name=%s kind=0x%lx nb=%u %s cflags=%lu)", nm ? nm : "NULL", kind, nb, hetero ? "mixed" : hwloc_obj_type_string((hwloc_obj_type_t)ty), cflags); c.attempt(what);
       hwloc_distances_add_handle_t h = hwloc_distances_add_create(t, nm, kind, cflags);
       if (!h) { CHECK(c, bad || cflags, "add_create", "%s: add_create failed for a legal kind (errno %d)", what.c_str(), errno); c.desc("\n | " + what + " -> create rejected"); fullcheck(c, t, "rejected add_create", false); continue; }
       CHECK(c, !bad && !cflags, "add_invalid", "%s: add_create accepted an invalid kind or flags", what.c_str());
       std::vector<uint64_t> v(nb * nb + 1); int base = o.range(1, 5); for (unsigned i = 0; i < nb * nb; i++) v[i] = o.chance(1, 8) ? 0 : o.chance(1, 8) ? ((uint64_t)o.raw() << o.range(0, 33)) : (uint64_t)base * o.range(1, 4);
-      std::vector<hwloc_obj_t> arr(pool); arr.push_back(NULL); unsigned long aflags = o.chance(1, 20) ? 2 : 0;
+      std::vector<hwloc_obj_t> arr(pool); arr.push_back(NULL); unsigned long aflags = o.chance(1, 20) ? 2 : 0; if (force_valid) aflags = 0;
       int r = hwloc_distances_add_values(t, h, nb, arr.data(), v.data(), aflags);
       if (nb < 2 || aflags) { CHECK(c, r == -1, "add_invalid", "%s: add_values accepted nbobjs=%u flags=%lu", what.c_str(), nb, aflags); c.desc("\n | " + what + " -> values rejected"); fullcheck(c, t, "rejected add_values", false); continue; }
       CHECK(c, r == 0, "add_values", "%s: add_values failed errno %d", what.c_str(), errno);
-      unsigned long cf = o.chance(1, 12) ? 1UL << o.range(2, 8) : 0; r = hwloc_distances_add_commit(t, h, cf);
+      unsigned long cf = o.chance(1, 12) ? 1UL << o.range(2, 8) : 0; if (force_valid) cf = 0; r = hwloc_distances_add_commit(t, h, cf);
       if (cf) { CHECK(c, r == -1, "add_invalid", "%s: commit accepted unknown flag 0x%lx", what.c_str(), cf); c.desc("\n | " + what + " -> commit rejected"); fullcheck(c, t, "rejected add_commit", false); continue; }
       CHECK(c, r == 0, "add_commit", "%s: commit failed errno %d", what.c_str(), errno);
       Ent e; e.hasname = hn; if (hn) e.name = nm; int ut = pool[0]->type; for (auto x : pool) if ((int)x->type != ut) ut = -1; e.utype = ut; e.kind = kind | (ut == -1 ? HWLOC_DISTANCES_KIND_HETEROGENEOUS_TYPES : 0);
       for (auto x : pool) e.objs.push_back({(int)x->type, useos(ut) ? x->os_index : x->gp_index}); v.resize(nb * nb); e.vals = v; model.push_back(e);
-      c.desc("\n | " + what + " -> added"); adds++; c.cls(ut == -1 ? "add:heterogeneous" : "add:homogeneous"); fullcheck(c, t, "add", false);
+      c.desc("\n | " + what + " -> added"); adds++; if (tail_removed) { c.cls("add:after-the-list-tail-was-removed"); tail_removed = false; } c.cls(ut == -1 ? "add:heterogeneous" : "add:homogeneous"); fullcheck(c, t, "add", false);
     } else if (op <= 5) { unsigned long kind = o.range(0, 63); unsigned nrin = o.range(0, (int)model.size() + 1), nr = nrin; struct hwloc_distances_s *dd[80]; memset(dd, 0x5a, sizeof dd); errno = 0; int r = hwloc_distances_get(t, &nr, dd, kind, 0);
       if (kind & ~(unsigned long)KIND_ALL) CHECK(c, r == -1 && errno == EINVAL, "get_invalid", "get with unknown kind bits 0x%lx: ret %d", kind, r); else { checkget(c, t, r, nrin, nr, dd, NULL, -1, kind, "get"); if (adds && events) gets_after++; c.cls(nrin < model.size() ? "get:undersized-array" : "get:full-array"); }
       c.descf("\n | get(kind=0x%lx, array=%u)", kind, nrin);
@@ -144,12 +145,12 @@ void h_run(Case &c) {
     } else if (op == 8) { int depth = o.range(-8, hwloc_topology_get_depth(t)); unsigned nrin = o.range(0, (int)model.size() + 1), nr = nrin; struct hwloc_distances_s *dd[80]; memset(dd, 0x5a, sizeof dd); int ty = (int)hwloc_get_depth_type(t, depth); errno = 0; int r = hwloc_distances_get_by_depth(t, depth, &nr, dd, 0, 0);
       if (ty == -1) CHECK(c, r == -1 && errno == EINVAL, "get_invalid", "get_by_depth(%d) on a non-existing depth: ret %d errno %d", depth, r, errno); else { checkget(c, t, r, nrin, nr, dd, NULL, ty, 0, "get_by_depth"); if (adds && events) gets_after++; } c.descf("\n | get_by_depth(%d)", depth);
     } else if (op == 9) { int w = o.range(0, 6);
-      if (w == 6) { int ty = o.pick(types); int td = hwloc_get_type_depth(t, (hwloc_obj_type_t)ty); int r = hwloc_distances_remove_by_type(t, (hwloc_obj_type_t)ty); CHECK(c, r == 0, "remove", "remove_by_type(%s) failed", hwloc_obj_type_string((hwloc_obj_type_t)ty));
-        if (td != HWLOC_TYPE_DEPTH_UNKNOWN && td != HWLOC_TYPE_DEPTH_MULTIPLE) { std::vector<Ent> nm; for (auto &e : model) if (e.utype != ty) nm.push_back(e); if (nm.size() != model.size()) events++; model = nm; }
+      if (w == 6) { int ty = o.pick(types); if (!model.empty() && o.chance(2, 3)) { int ut = model[o.raw() % model.size()].utype; if (ut >= 0) ty = ut; } int td = hwloc_get_type_depth(t, (hwloc_obj_type_t)ty); int r = hwloc_distances_remove_by_type(t, (hwloc_obj_type_t)ty); CHECK(c, r == 0, "remove", "remove_by_type(%s) failed", hwloc_obj_type_string((hwloc_obj_type_t)ty));
+        if (td != HWLOC_TYPE_DEPTH_UNKNOWN && td != HWLOC_TYPE_DEPTH_MULTIPLE) { std::vector<Ent> nm; for (auto &e : model) if (e.utype != ty) nm.push_back(e); if (nm.size() != model.size()) events++; if (!model.empty() && model.back().utype == ty && !nm.empty()) { c.cls("remove:tail-with-survivors"); tail_removed = true; } model = nm; }
         c.descf("\n | remove_by_type(%s)", hwloc_obj_type_string((hwloc_obj_type_t)ty)); fullcheck(c, t, "remove_by_type", false); } else
       if (w == 0) { CHECK(c, hwloc_distances_remove(t) == 0, "remove", "remove failed"); model.clear(); events++; c.desc("\n | remove()"); fullcheck(c, t, "remove", false); }
-      else if (w <= 2) { int depth = o.range(-8, hwloc_topology_get_depth(t)); int ty = (int)hwloc_get_depth_type(t, depth); int r = hwloc_distances_remove_by_depth(t, depth);
-        if (ty == -1) CHECK(c, r == -1, "remove_invalid", "remove_by_depth(%d) on a non-existing depth accepted", depth); else { CHECK(c, r == 0, "remove", "remove_by_depth failed"); std::vector<Ent> nm; for (auto &e : model) if (e.utype != ty) nm.push_back(e); if (nm.size() != model.size()) events++; model = nm; }
+      else if (w <= 2) { int depth = o.range(-8, hwloc_topology_get_depth(t)); if (!model.empty() && o.chance(2, 3)) { int ut = model[o.raw() % model.size()].utype; if (ut >= 0) { int td = hwloc_get_type_depth(t, (hwloc_obj_type_t)ut); if (td != HWLOC_TYPE_DEPTH_UNKNOWN && td != HWLOC_TYPE_DEPTH_MULTIPLE) depth = td; } } /* usually the depth of an existing structure (first, middle or last of the list) */ int ty = (int)hwloc_get_depth_type(t, depth); int r = hwloc_distances_remove_by_depth(t, depth);
+        if (ty == -1) CHECK(c, r == -1, "remove_invalid", "remove_by_depth(%d) on a non-existing depth accepted", depth); else { CHECK(c, r == 0, "remove", "remove_by_depth failed"); std::vector<Ent> nm; for (auto &e : model) if (e.utype != ty) nm.push_back(e); if (nm.size() != model.size()) events++; if (!model.empty() && model.back().utype == ty && !nm.empty()) { c.cls("remove:tail-with-survivors"); tail_removed = true; } model = nm; }
         c.descf("\n | remove_by_depth(%d)", depth); fullcheck(c, t, "remove_by_depth", false); }
       else if (model.size()) { unsigned nr = 64; struct hwloc_distances_s *dd[64]; hwloc_distances_get(t, &nr, dd, 0, 0); unsigned k = o.raw() % nr; for (unsigned i = 0; i < nr; i++) if (i != k) hwloc_distances_release(t, dd[i]);
         CHECK(c, hwloc_distances_release_remove(t, dd[k]) == 0, "remove", "release_remove failed"); model.erase(model.begin() + k); events++; c.descf("\n | release_remove(#%u)", k); fullcheck(c, t, "release_remove", false); }
